@@ -28,7 +28,8 @@ def axis_data_unit(periodic, with_ghost, cell_coords):
             grid = Instance(None, {"shape": (N,), "periodic": [periodic], "axes_bounds": ((lo, lo + z3.ToReal(N) * dx),), "discretization": [dx]}, name="grid")
             f = it.call(it.get_function(MOD, "make_interpolation_axis_data"), [grid, 0], {"with_ghost_cells": with_ghost, "cell_coords": cell_coords})
             r = it.call(f, [coord], {})
-            x = coord if cell_coords else (coord - lo) / dx - Fraction(1, 2)  # position in units of cell centres
+            # position in units of cell centres; cell coordinates put the centre of cell i at i + 1/2 (GridBase.transform, C12)
+            x = (coord if cell_coords else (coord - lo) / dx) - Fraction(1, 2)
             return r, N, x
 
         n_code = n_ok = 0
